@@ -50,11 +50,11 @@ def strings_for(values):
     return out
 
 
-def build(values):
+def build(values, deprecated=()):
     # two more enums in the same module, declared before and after E (each enum must keep its own strings)
     schema = gql.Schema([
         gql.enum("Before", ["B_ONE", "B_TWO", "B_THREE", "B_FOUR", "B_FIVE", "B_SIX"]),
-        gql.enum("E", values),
+        gql.enum("E", [(v, ("gone",) if i % 2 == 0 else (None,)) if v in deprecated else v for i, v in enumerate(values)]),
         gql.enum("Zlast", ["Z_ONE", "Z_TWO"]),
         # (an input field with the first value as its schema default, a list of the enum on both sides)
         gql.inp("In", [("e", "E"), FieldDef("d", "E", default=values[0]), ("many", "[E!]")]),
@@ -77,6 +77,12 @@ def run(tier):
         for normalization in ("none", "rust"):
             schema, doc = build(vs)
             mods.append({"values": vs, "norm": normalization, "schema": schema, "doc": doc})
+            if len(vs) >= 2 and normalization == "none" or len(vs) >= 3:
+                # deprecated VALUES are still values: under every strategy each keeps its own variant and its string
+                for strat in ("deny", "warn", "allow"):
+                    dschema, ddoc = build(vs, deprecated=(vs[0], vs[-1]))
+                    mods.append({"values": vs, "norm": normalization, "schema": dschema, "doc": ddoc, "opts": {"deprecation": strat},
+                                 "deprecated_values": [vs[0], vs[-1]]})
             if len(vs) != 2:
                 # the string behaviour of an enum does not depend on the other options: more derives (enums get the union of
                 # both lists), skip-none, other-variant, the schema as introspection JSON
@@ -88,7 +94,7 @@ def run(tier):
                                         "normalization": m["norm"]}, **m.get("opts", {})), ext="json" if m.get("json") else "graphql") for m in mods])
     farm = Farm("c10")
     for m, r in zip(mods, resps):
-        m["label"] = {"enum_values": m["values"], "normalization": m["norm"], "options": m.get("opts", "default"), "schema_format": "json" if m.get("json") else "sdl"}
+        m["label"] = {"enum_values": m["values"], "normalization": m["norm"], "options": m.get("opts", "default"), "deprecated_values": m.get("deprecated_values", []), "schema_format": "json" if m.get("json") else "sdl"}
         sigs = set()
         idents = [(camel(v) if m["norm"] == "rust" else v) for v in m["values"]]
         if any(i == "Other" for i in idents):
